@@ -280,6 +280,39 @@ def rewrite_format(text, nth, log):
     return text[:m.start()] + out + '\n' * nl + text[pc + 1:]
 
 
+def rewrite_desugar_for(text, k, itname, call, log):
+    msk = lex.mask(text)
+    mfn = re.search(r'\bfn\b', msk)
+    body_open = lex.find_at_depth0(msk, mfn.end(), len(msk), '{;')
+    loops = [l for l in _loop_positions(msk) if l[0] > body_open]
+    if k < 1 or k > len(loops):
+        raise ExtractError('desugar_for %d: function has %d loops' % (k, len(loops)))
+    kwstart, kwend, brace, kw = loops[k - 1]
+    if kw != 'for':
+        raise ExtractError('desugar_for %d: not a for loop' % k)
+    j = kwend
+    mi = None
+    while j < brace:
+        c = msk[j]
+        if c in lex.OPEN:
+            j = lex.match_bracket(msk, j) + 1
+            continue
+        mm = re.compile(r'\bin\b').match(msk, j)
+        if mm and not (msk[j - 1].isalnum() or msk[j - 1] == '_'):
+            mi = mm
+            break
+        j += 1
+    if not mi:
+        raise ExtractError('desugar_for: cannot find `in`')
+    pat = text[kwend:mi.start()].strip()
+    expr = text[mi.end():brace].strip()
+    src = ('(%s)%s' % (expr, call)) if call else ('IntoIterator::into_iter(%s)' % expr)
+    nl = text.count('\n', kwstart, brace + 1)
+    new = 'let mut %s = %s; let ghost %s_all = vstd::std_specs::iter::IteratorSpec::remaining(&%s); loop { let %s = match %s.next() { Some(_dv) => _dv, None => break };' % (itname, src, itname, itname, pat, itname) + '\n' * nl
+    log.append(('D39', 'for %s in %s desugared to loop over %s.next()' % (pat, expr, itname), text.count('\n', 0, kwstart)))
+    return text[:kwstart] + new + text[brace + 1:]
+
+
 def rewrite_mapindex(text, var, log):
     n = 0
     while True:
@@ -340,6 +373,10 @@ def _apply_block(text, first_line, relpath, directives, tmpl_file, log, stub):
     for d in directives:
         if d['kind'] == 'uncontinue':
             text = rewrite_continue(text, log)
+    # D39: `for PAT in EXPR { B }`  =>  `let mut it = EXPR.iter(); loop { let PAT = match it.next() { Some(v) => v, None => break }; B }`
+    # (the language definition of `for`, spelled out because Verus for-loops do not support `continue`); applied last-to-first
+    for d in sorted([d for d in directives if d['kind'] == 'desugar_for'], key=lambda d: -d['k']):
+        text = rewrite_desugar_for(text, d['k'], d['it'], d['call'], log)
     # D16 (general form): every `VAR[expr]` on the named map variables becomes std's definition of `Index`
     # for maps, `VAR.get(expr).expect("no entry found for key")` (a leading `&` is absorbed; a bare use is dereferenced)
     for d in directives:
@@ -355,7 +392,11 @@ def _apply_block(text, first_line, relpath, directives, tmpl_file, log, stub):
         if d['kind'] == 'subst':
             rx, rep, cnt, rule = d['regex'], d['rep'], d['count'], d['rule']
             found = len(re.findall(rx, text, flags=re.S))
-            if found != cnt:
+            if found == 0 and d.get('optional'):
+                # an enabling rewrite (a construct Verus cannot type) whose construct is absent: nothing to rewrite
+                log.append((rule, 'optional subst /%s/ not applicable: construct absent' % rx, 0))
+                continue
+            if (cnt == -1 and found == 0) or (cnt != -1 and found != cnt):
                 raise ExtractError('subst %s /%s/ matched %d times, expected %d' % (rule, rx, found, cnt))
             def _rep(m, rep=rep):
                 out = m.expand(rep)
@@ -649,6 +690,9 @@ def assemble(unit_name, repo=None):
                         cur = {'kind': 'mutself', 'lines': []}
                     elif c2 == 'uncontinue':
                         cur = {'kind': 'uncontinue', 'lines': []}
+                    elif c2 == 'desugar_for':
+                        p2, kv2 = _kv(r2.split())
+                        cur = {'kind': 'desugar_for', 'k': int(p2[0]), 'it': kv2.get('it', '_it%s' % p2[0]), 'call': kv2.get('call'), 'lines': []}
                     elif c2 == 'mapindex':
                         cur = {'kind': 'mapindex', 'vars': r2.split(), 'lines': []}
                     elif c2 == 'bind_tail':
@@ -657,11 +701,15 @@ def assemble(unit_name, repo=None):
                         p2, kv2 = _kv(r2.split())
                         cur = {'kind': 'fmt', 'nth': int(p2[0]) if p2 else 1, 'lines': []}
                     elif c2 == 'subst':
-                        mm = re.match(r'([A-Z]\d\w*)\s+/((?:[^/\\]|\\.)*)/\s*=>\s*(.*?)(?:\s+count=(\d+))?$', r2)
+                        opt = False
+                        if r2.rstrip().endswith(' optional'):
+                            opt = True
+                            r2 = r2.rstrip()[:-len(' optional')]
+                        mm = re.match(r'([A-Z]\d\w*)\s+/((?:[^/\\]|\\.)*)/\s*=>\s*(.*?)(?:\s+count=(\d+|\*))?$', r2)
                         if not mm:
                             raise ExtractError('malformed subst: ' + r2)
                         cur = {'kind': 'subst', 'rule': mm.group(1), 'regex': mm.group(2).replace('\\/', '/'),
-                               'rep': mm.group(3), 'count': int(mm.group(4) or 1), 'lines': []}
+                               'rep': mm.group(3), 'count': (-1 if mm.group(4) == '*' else int(mm.group(4) or 1)), 'lines': [], 'optional': opt}
                     else:
                         raise ExtractError('unknown directive //@%s in extract block' % c2)
                     directives.append(cur)
